@@ -112,6 +112,9 @@ pub struct Traffic {
     /// non-Reliable packets whose length is drawn from boundary values of the parent-lead fields
     /// (126..129, 254..257, ...); 2 = "uniform fragments": every packet has the same fragment count
     pub pattern: u8,
+    /// the application submits nothing during these (from, until) spans, seconds long, so that
+    /// keepalive / resynchronisation paths run in the middle of a connection's life
+    pub idle: Vec<(u64, u64)>,
 }
 
 #[derive(Clone, Debug)]
@@ -586,8 +589,35 @@ impl<'s> Sim<'s> {
         let hc = self.sides[0].hc.as_ref().unwrap();
         let (fbase, fnext) = hc.verif_tx_frame_ids();
         let (pbase, _pnext) = hc.verif_tx_packet_ids();
-        let kind = rng.below(6);
+        let kind = rng.below(7);
         let bytes: Option<Vec<u8>> = match kind {
+            6 => {
+                // ids that are NOT in the sender's log but congruent to logged ones modulo a power
+                // of two (2^16, 2^20 = the packet id space, 2^24, 2^31), carrying the nonce parity
+                // that would be right for the frames they alias
+                let span = fnext.wrapping_sub(fbase);
+                if span == 0 {
+                    None
+                } else {
+                    let real = fbase.wrapping_add(rng.below(span as u64) as u32);
+                    let maxbits = fnext.wrapping_sub(real).min(32);
+                    let mut bitfield = 1u32;
+                    for b in 1..maxbits {
+                        if rng.chance(0.3) {
+                            bitfield |= 1 << b;
+                        }
+                    }
+                    let shift = (1u32 << *rng.pick(&[16u32, 20, 20, 20, 24, 31])).wrapping_mul(rng.range(1, 3) as u32);
+                    let base_id = if rng.chance(0.5) { real.wrapping_add(shift) } else { real.wrapping_sub(shift) };
+                    match self.dirs[0].nonce_parity(real, bitfield) {
+                        Some(par) if shift != 0 => {
+                            self.out.c.inc("inj_aliased_ids_with_right_parity");
+                            Some(encode(&RFrame::Acks { frame_window_base_id: fbase, packet_window_base_id: pbase, groups: vec![RAckGroup { base_id, bitfield, nonce: par }] }))
+                        }
+                        _ => None,
+                    }
+                }
+            }
             0 | 1 if !self.sides[0].captured_acks.is_empty() => {
                 // verbatim replay of a genuine ack frame that was already delivered
                 let n = self.sides[0].captured_acks.len();
@@ -726,7 +756,8 @@ impl<'s> Sim<'s> {
             }
             return true;
         }
-        if t >= tr.start_ns && t < tr.stop_ns && self.sides[i].sent_packets < tr.total && self.app_rng[i].chance(tr.per_step_p) {
+        let in_idle_span = tr.idle.iter().any(|&(a, b)| t >= a && t < b);
+        if t >= tr.start_ns && t < tr.stop_ns && !in_idle_span && self.sides[i].sent_packets < tr.total && self.app_rng[i].chance(tr.per_step_p) {
             let n = self.app_rng[i].range(tr.burst.0, tr.burst.1) as usize;
             for _ in 0..n {
                 if self.sides[i].sent_packets >= tr.total {
